@@ -205,7 +205,7 @@ def mutations(subject, rng):
     for rule, ins, where in parameter_rules(subject, rng):
         if where == "prep":
             p = copy.deepcopy(prog)
-            p.insert(min(first_gate, 1), ins) if False else p.insert(first_gate, ins)
+            p.insert(first_gate, ins)
             mk("param:" + rule, p, position=first_gate)
         elif first_gate < n:
             pos = rng.randrange(first_gate, n)
@@ -222,8 +222,6 @@ def mutations(subject, rng):
                 p = copy.deepcopy(prog)
                 tail = p[-1]
                 ins = dict(ins, modes=tail.get("modes"))
-                if ins["modes"] is not None and len(ins["modes"]) != 1 and ins["type"] == "GeneraldyneMeasurement":
-                    pass
                 p[-1] = ins
                 mk("param:" + rule, p, position=n - 1)
             else:
@@ -340,9 +338,6 @@ def judge_acceptance(sc):
     subject = sc["subject"]
     run = outcomes.execute_scripted(subject, sc["script"], shots=sc.get("shots", subject["shots"]))
     facts = {"sim": subject["sim"], "kind": "acceptance", "shots_none": sc.get("shots", subject["shots"]) is None}
-    min_cut = None
-    for ev in run.events:
-        pass
     c = {"acceptance_runs": 1, "by_sim": {subject["sim"]: 1}, "cutoffs": {str(subject["config"].get("cutoff", "default")): 1}, "draws_scripted": run.seam_stats["scripted"], "strategies": dict(run.policy.by_strategy)}
     rec = {"digest": run.log.digest(), "facts": facts, "counters": c, "nontrivial": run.seam_stats["scripted"] > 0 or len(run.events) > 3}
     e = run.exception
